@@ -60,7 +60,7 @@ func run(c *vh.Ctx) error {
 	}
 
 	// ---- operation sequences ----------------------------------------------------------------------
-	nSeq := c.N(2200, 18000)
+	nSeq := c.N(1800, 16000)
 	maxOps := c.N(80, 140)
 	tamperBudget := c.N(300, 2000)
 	if c.Search {
@@ -145,7 +145,7 @@ func run(c *vh.Ctx) error {
 	}
 
 	// ---- malformed stream: hostile proof stores ----------------------------------------------------
-	nH := c.N(12000, 120000)
+	nH := c.N(9000, 120000)
 	for i := 0; i < nH; i++ {
 		l := genHostileVerify(c.R)
 		before := rn.cnt["rawverify-err"]
